@@ -440,6 +440,9 @@ def pointers_clean(program):
     for op in program:
         if not isinstance(op, dict):
             return False
+        # every operation object is decoded before the first one is applied: a later malformed object stops the call first
+        if op.get("op") not in RFC_OPS + EXT_OPS or any(k not in ("op", "path", "from", "value") for k in op):
+            return False
         for k in ("path", "from"):
             if k in op:
                 try:
